@@ -82,3 +82,19 @@ Theorem C04_whole_image_thread_ids : forall c lo b ts st rs st',
   map (fun r : N * MiniDump.memdesc * MemWriter.loc => fst (fst r)) rs = map Image.it_tid ts.
 Proof. exact ImageThreads.run_rel_tids. Qed.
 Print Assumptions C04_whole_image_thread_ids.
+
+(* End to end (world -> content -> image): whenever the content lists the threads the structural model retains for a world, the
+   thread list of the FINAL image carries exactly their ids in enumeration order: an id is listed iff a thread with that id could
+   be attached and has a non-null stack pointer, and no id appears twice when the kernel's ids are distinct. *)
+Theorem C04_whole_image_thread_ids_of_world : forall c obs dirs lg s',
+  Image.image c MiniDump.empty_wst = MemWriter.Ok ((dirs, lg), s') -> Hoare.small (Hoare.blen s') ->
+  map Image.it_tid (Image.ic_threads c) = listed obs ->
+  let n := length (Image.ic_threads c) in
+  exists rs : list (N * MiniDump.memdesc * MemWriter.loc),
+    slice (Writer.w_buf s') ImageThreads.HEAD_LEN (4 + MiniDump.THREAD_SZ * n) = le 4 (N.of_nat n) ++ concat (map Image.enc_thread3 rs) /\
+    map (fun r : N * MiniDump.memdesc * MemWriter.loc => fst (fst r)) rs = listed obs /\
+    (forall tid, In tid (map (fun r : N * MiniDump.memdesc * MemWriter.loc => fst (fst r)) rs) <->
+                 exists t, In t obs /\ t_tid t = tid /\ t_attached t = true /\ t_rsp t <> 0%N) /\
+    (NoDup (map t_tid obs) -> NoDup (map (fun r : N * MiniDump.memdesc * MemWriter.loc => fst (fst r)) rs)).
+Proof. exact ImageThreads.image_thread_ids_of_world. Qed.
+Print Assumptions C04_whole_image_thread_ids_of_world.
